@@ -73,6 +73,10 @@ def wsdl_split(d) -> dict:
     return {"svc.wsdl": svc, "iface.wsdl": iface}
 
 
+def body_ns(d):
+    return "urn:svc:body" if d.get("bodyNs") == "other" else d["tns"]
+
+
 def wsdl_text(d, split=False):
     tns = d["tns"]
     els, msgs, pops, bops = [], [], [], []
@@ -99,7 +103,7 @@ def wsdl_text(d, split=False):
         outm = f"{n}Out" if eff_style(d, o) == "document" else f"{n}Response"
         pops.append(f'<operation name="{n}"><input message="tns:{n}In"/><output message="tns:{outm}"/>{flt}</operation>')
         style = f' style="{o["style"]}"' if o["style"] else ""
-        nsattr = f' namespace="{tns}"' if eff_style(d, o) == "rpc" else ""
+        nsattr = f' namespace="{body_ns(d)}"' if eff_style(d, o) == "rpc" else ""
         hdr = '<soap:header message="tns:AuthHeader" part="auth" use="literal"/>' if o["header"] else ""
         if o["header"] and d.get("nhdr", 1) == 2:
             hdr += '<soap:header message="tns:AuthHeader" part="au" use="literal"/>'     # a second header block: the other part of the message
@@ -299,7 +303,7 @@ def response_xml(d, o, fault=False):
     elif eff_style(d, o) == "document":
         body = f'<t:{o["name"]}Response xmlns:t="{tns}"><t:r>pong</t:r></t:{o["name"]}Response>'
     else:
-        body = f'<t:{o["name"]}Response xmlns:t="{tns}"><r>pong</r></t:{o["name"]}Response>'
+        body = f'<t:{o["name"]}Response xmlns:t="{body_ns(d)}"><r>pong</r></t:{o["name"]}Response>'
     return f'<e:Envelope xmlns:e="{SOAPENV}"><e:Body>{body}</e:Body></e:Envelope>'.encode()
 
 
